@@ -3,6 +3,7 @@ package main
 import (
 	"fmt"
 	"go/types"
+	"unicode/utf8"
 
 	"golang.org/x/tools/go/ssa"
 )
@@ -294,9 +295,31 @@ func (w *Worker) stepMore(s *State, f *Frame, in ssa.Instruction) ([]*State, boo
 			if pos >= n {
 				f.Env[x] = TupleV{[]Value{mkBool(false), mkInt(0), mkInt(0)}}
 			} else {
-				// ASCII assumption: one byte per rune (NondetChars constrains bytes to 0..127)
-				f.Env[x] = TupleV{[]Value{mkBool(true), mkInt(int64(pos)), charInt(sv.C[pos])}}
-				f.Env[x.Iter] = TupleV{[]Value{sv, mkInt(int64(pos + 1)), it.E[2]}}
+				// concrete bytes are decoded as UTF-8; a symbolic byte is one ASCII rune
+				// (NondetChars draws bytes 0..127; recorded on the path for other sources)
+				var buf []byte
+				for k := pos; k < n && k < pos+4; k++ {
+					ci := charInt(sv.C[k])
+					if !ci.C {
+						break
+					}
+					buf = append(buf, byte(ci.N))
+				}
+				if c0 := charInt(sv.C[pos]); !c0.C {
+					s.addPC("(< " + c0.T + " 128)")
+					f.Env[x] = TupleV{[]Value{mkBool(true), mkInt(int64(pos)), c0}}
+					f.Env[x.Iter] = TupleV{[]Value{sv, mkInt(int64(pos + 1)), it.E[2]}}
+				} else if buf[0] < utf8.RuneSelf {
+					f.Env[x] = TupleV{[]Value{mkBool(true), mkInt(int64(pos)), c0}}
+					f.Env[x.Iter] = TupleV{[]Value{sv, mkInt(int64(pos + 1)), it.E[2]}}
+				} else {
+					if !utf8.FullRune(buf) && pos+len(buf) < n {
+						panic(engineErr("range over a string mixing a multi-byte prefix with symbolic bytes"))
+					}
+					r, size := utf8.DecodeRune(buf)
+					f.Env[x] = TupleV{[]Value{mkBool(true), mkInt(int64(pos)), mkInt(int64(r))}}
+					f.Env[x.Iter] = TupleV{[]Value{sv, mkInt(int64(pos + size)), it.E[2]}}
+				}
 			}
 		} else {
 			mt := x.Iter.(*ssa.Range).X.Type().Underlying().(*types.Map)
